@@ -202,7 +202,13 @@ func ZZ_C15_Resize() {
 	zzAudit(m, model, ks, "c15.resize.before")
 	// make the table look loaded so that the next insert into the full chain takes the grow path
 	t0.addSizePlain(1, int(float64(len(t0.buckets))*nodesPerMapBucket*mapLoadFactor)+1)
-	zzPut(m, ks[5], ks[5]+1)
+	applied := 0
+	m.Compute(ks[5], func(old *zzNode) *zzNode {
+		applied++
+		vAssert(old == nil, "c15.resize.growing_insert_sees_absent_key")
+		return &zzNode{ks[5], ks[5] + 1}
+	})
+	vAssert(applied == 1, "c15.resize.update_function_exactly_once_across_growth")
 	model[ks[5]] = ks[5] + 1
 	t1 := m.table.Load()
 	vAssert(t1 != t0 && len(t1.buckets) == 2*len(t0.buckets), "c15.resize.grew")
@@ -270,7 +276,11 @@ func ZZ_C15_Par() {
 		t0 := m.table.Load()
 		t0.addSizePlain(1, int(float64(len(t0.buckets))*nodesPerMapBucket*mapLoadFactor)+1)
 		var got *zzNode
-		vPar(func() { zzPut(m, ks[5], 55) }, func() { got = m.Get(ks[0]) }, func() { zzPut(m, 100001, 7) })
+		applied := 0
+		vPar(func() {
+			m.Compute(ks[5], func(old *zzNode) *zzNode { applied++; return &zzNode{ks[5], 55} })
+		}, func() { got = m.Get(ks[0]) }, func() { zzPut(m, 100001, 7) })
+		vAssert(applied == 1, "c15.par.update_function_exactly_once_across_growth")
 		vAssert(got != nil && got.v == ks[0]+1, "c15.par.get_during_resize_finds_present_key")
 		vAssert(m.Get(ks[5]) != nil && m.Get(ks[5]).v == 55, "c15.par.insert_that_grew_is_present")
 		vAssert(m.Get(100001) != nil && m.Get(100001).v == 7, "c15.par.concurrent_insert_survives_resize")
